@@ -17,6 +17,17 @@ var (
 
 // C13.metrics: each data-point kind against a field-by-field table
 func HarnessC13Metrics() {
+	// start time: ordinary, the zero time, or before the Unix epoch (both are
+	// not representable as unsigned nanoseconds and are encoded as 0)
+	wantT0 := uint64(1700000000000000001)
+	switch vndChoice(3) {
+	case 0:
+		c13T0 = time.Unix(0, 1700000000000000001)
+	case 1:
+		c13T0, wantT0 = time.Time{}, 0
+	case 2:
+		c13T0, wantT0 = time.Unix(0, -5), 0
+	}
 	set := attribute.NewSet(attribute.Int64("k", vndI64()))
 	temp := metricdata.Temporality(vndChoice(3)) // undefined, cumulative, delta
 	iv, fv := vndI64(), vndF64()
@@ -74,7 +85,7 @@ func HarnessC13Metrics() {
 		vndAssert(s != nil && s.AggregationTemporality == wantTemp && s.IsMonotonic == mono, "sum-temporality-and-monotonicity")
 		p := s.DataPoints[0]
 		vndAssert(p.GetAsInt() == iv, "sum-value-identical")
-		vndAssert(p.StartTimeUnixNano == 1700000000000000001 && p.TimeUnixNano == 1700000000000000999, "timestamps-identical")
+		vndAssert(p.StartTimeUnixNano == wantT0 && p.TimeUnixNano == 1700000000000000999, "timestamps-identical")
 		vndAssert(len(p.Attributes) == 1 && p.Attributes[0].Value.GetIntValue() == set.ToSlice()[0].Value.AsInt64(), "data-point-attributes-identical")
 	case 1:
 		g := m.GetGauge()
